@@ -11,7 +11,6 @@ def run(ctx):
     if rows is None:
         return
     A.coverage(ctx, rows)
-    A.fetch_height_compare(ctx, "cases_C08_fh")
     nmon, classes = A.monitors(ctx, rows, "C08")
     ctx.cov["monitor_findings"] = classes
     ctx.evaluations = sum(len(r["steps"]) for r in rows)
